@@ -20,6 +20,13 @@ pub mod str_ax {
     pub broadcast axiom fn pat_slash() ensures #[trigger] pat::<char>('/') == seq![47u8];
     pub broadcast axiom fn pat_str(p: &str) ensures #[trigger] pat::<&str>(p) == p.spec_bytes();
     pub broadcast axiom fn len_bound(s: &str) ensures #[trigger] s.spec_bytes().len() <= isize::MAX;
+    // TRUSTED (A-STR): UTF-8 fact used for the completeness direction only: in the byte view of a &str every ASCII
+    // byte is a complete character, so the positions of that byte and right after it are char boundaries
+    pub axiom fn ascii_boundaries(s: &str, i: int)
+        requires 0 <= i < s.spec_bytes().len(), s.spec_bytes()[i] < 0x80u8
+        ensures vstd::utf8::is_char_boundary(s.spec_bytes(), i), vstd::utf8::is_char_boundary(s.spec_bytes(), i + 1);
+    pub axiom fn end_boundaries(s: &str)
+        ensures vstd::utf8::is_char_boundary(s.spec_bytes(), 0), vstd::utf8::is_char_boundary(s.spec_bytes(), s.spec_bytes().len() as int);
 }
 pub use str_ax::{pat, bx};
 
